@@ -362,6 +362,9 @@ def c06(ctx, api):
     consts = {'Emit': 'TRUE', 'Prop': '"C06"', 'MaxCalls': 8, 'MaxDocs': 7, 'NTexts': 72}
     st, summ = api['run_tlc_to_harness'](ctx, 'api-sim', 'API', cfg(constants=consts), simulate=sim, timeout=1500)
     acc.add('API.tla -simulate: histories of <= 8 calls over 72 texts', st, summ, exhaustive=False)
+    tv = api['run_api_trace_validation'](ctx, 'api-traces', 400 if thorough else 120, 12, ctx['seed'])
+    acc.add_traces('trace validation: random histories recorded from the real API, consumed event by event by TraceAPI.tla '
+                   '(POSTCONDITION: every line consumed, no unexplainable event)', tv)
     return acc.result('cases are the reachable states (histories) of API.tla; each is replayed call by call into the real API with deep '
                       'snapshots of all documents (including spare slice capacity) and all earlier results; a history is non-trivial '
                       'when every step has a single admissible outcome',
